@@ -125,6 +125,7 @@ def main():
                     os.remove(ep)
             else:
                 open(ep, "w").write(txt)
+        sh("go build -o %s/build/bin/ ./cmd/qh ./cmd/extract" % V, cwd=os.path.join(V, "harness"))   # binaries of the unchanged tree again
         sh([os.path.join(V, "build", "bin", "extract"), "-lean", os.path.join(V, "lean/QuartzModel/Generated/Facts.lean"), "-json", os.path.join(V, "build/facts.json")])
     meta["checks_run"] = res
     meta["what_i_ran"] = "tools/seedtest.py %s (scratch worktree: apply, go build, existing suite, demo with/without; then git -C /repo apply, ./check <id>, git -C /repo checkout -- .)" % " ".join(sys.argv[1:])
